@@ -157,9 +157,33 @@ func (w *World) verifyUnit(u *Unit) *Exec {
 			}
 		}
 		env2 := &SpecEnv{e: e, fr: fr, st: out, old: fr.entry, vars: vars, oldVars: fr.params, results: res}
-		for _, c := range u.FC.Ensures {
-			f := e.specBool(env2, c)
-			e.sc.oblig(out.reach, f, fmt.Sprintf("%s#post.%s", u.Name, c.Label), "post", "postcondition: "+c.Text, fmt.Sprintf("%s:%d", strings.TrimPrefix(c.File, w.RepoDir+"/"), c.Line))
+		if u.FC.Flags["perexit"] != "" && len(fr.retStates) > 1 {
+			// postconditions checked at every return statement separately (same meaning as on the merged
+			// exit state, but without the case distinctions of the merge inside every formula)
+			for k, rs := range fr.retStates {
+				if rs.reach == "false" {
+					continue
+				}
+				v2 := map[string]Val{}
+				for kk, v := range fr.params {
+					v2[kk] = v
+				}
+				for i, n := range u.FC.RNames {
+					if i < len(fr.retVals[k]) {
+						v2[n] = fr.retVals[k][i]
+					}
+				}
+				envk := &SpecEnv{e: e, fr: fr, st: rs, old: fr.entry, vars: v2, oldVars: fr.params, results: fr.retVals[k]}
+				for _, c := range u.FC.Ensures {
+					f := e.specBool(envk, c)
+					e.sc.oblig(rs.reach, f, fmt.Sprintf("%s#post.%s@exit%d", u.Name, c.Label, k+1), "post", fmt.Sprintf("postcondition at return %d: %s", k+1, c.Text), fmt.Sprintf("%s:%d", strings.TrimPrefix(c.File, w.RepoDir+"/"), c.Line))
+				}
+			}
+		} else {
+			for _, c := range u.FC.Ensures {
+				f := e.specBool(env2, c)
+				e.sc.oblig(out.reach, f, fmt.Sprintf("%s#post.%s", u.Name, c.Label), "post", "postcondition: "+c.Text, fmt.Sprintf("%s:%d", strings.TrimPrefix(c.File, w.RepoDir+"/"), c.Line))
+			}
 		}
 		if u.FC.Flags["noframe"] == "" && !u.FC.ModAll {
 			e.checkFrame(fr, env2, u.FC, out)
